@@ -11,6 +11,16 @@
 //!   gz <level>                   nodegraph_to_buffer(level) (gzip when level > 0) -> from_reader -> save
 //!   ffi <level>                  nodegraph_to_buffer(level) -> nodegraph_from_buffer -> nodegraph_to_buffer(0)
 //!   file <level>                 level 0: save(path) -> from_path; else gz buffer on disk -> nodegraph_from_path; -> save
+//!
+//! huge sparse tables (2..8 MB of table data holding 0, 1 or a handful of bits: gzip ratios of 1000:1
+//! and more).  Neither side prints the megabytes; answers are digests, and the Lean driver computes the
+//! reference digest directly from the request lines (sizes and `h mod size` positions), see lean/Driver/C16.lean.
+//!   case <n> sparse <k> <sizes>  Nodegraph::new(sizes, k); only `count`, `spd`, `sp` follow
+//!   spd                          digest of the graph: k=.. occ=.. n=.. t=<size>:<popcount>:<set bits>;.. len=<length of
+//!                                save_to_writer's bytes> nz=<offset>:<byte>,.. (every non-zero byte of those bytes)
+//!   sp <route> <level>           nodegraph_to_buffer(level) -> load through <route> -> digest of what was loaded + same=<loaded == graph>
+//!                                routes: ffi = nodegraph_from_buffer, rd = Nodegraph::from_reader(&[u8]),
+//!                                path = bytes on disk + Nodegraph::from_path, ffipath = bytes on disk + nodegraph_from_path
 use sourmash::ffi::nodegraph::{
     nodegraph_buffer_free, nodegraph_free, nodegraph_from_buffer, nodegraph_from_path,
     nodegraph_to_buffer, SourmashNodegraph,
@@ -181,6 +191,63 @@ fn multi_case(o: &mut Out, r: &mut Rng, n: usize, max: u64) {
     path_ops(o, r, false);
 }
 
+/// a table size of about `mbit` Mbit: arbitrary, a multiple of 32 / of 8, or just below / above one
+fn huge_size(r: &mut Rng, lo: u64, hi: u64) -> u64 {
+    let mbit = r.range(lo, hi);
+    let base = mbit * 1_000_000 + r.below(1_000_000);
+    match r.below(5) {
+        0 => base / 32 * 32,
+        1 => base / 32 * 32 + r.range(24, 31),
+        2 => base / 8 * 8,
+        3 => (mbit << 20) + r.below(3) - 1,
+        _ => base | 1,
+    }
+}
+
+fn sparse_cases(o: &mut Out, r: &mut Rng, ncases: u64) {
+    const LEVELS: [u64; 5] = [2, 9, 6, 1, 0];
+    const ROUTES: [&str; 3] = ["rd", "path", "ffipath"];
+    let rot = r.below(15);
+    for c in 0..ncases {
+        let i = c + rot;
+        // shape: one table of 32..64 Mbit, two of 16..32 Mbit, four of 8..16 Mbit (4..8 MB in total)
+        let sizes: Vec<u64> = match i % 3 {
+            0 => vec![huge_size(r, 32, 64)],
+            1 => (0..2).map(|_| huge_size(r, 16, 32)).collect(),
+            _ => (0..4).map(|_| huge_size(r, 8, 16)).collect(),
+        };
+        // content: nothing, one hash, a handful
+        let nbits = match (i / 3 + i) % 3 {
+            0 => 0,
+            1 => 1,
+            _ => r.range(2, 6),
+        };
+        o.case(&format!("sparse {} {}", r.range(1, 64), show_nats(sizes.iter().copied())));
+        for j in 0..nbits {
+            let h = match r.below(4) {
+                0 => sizes[0] - 1,                 // last bit of the first table
+                1 => r.below(64),                  // first bytes
+                2 => sizes[0] * r.range(1, 1000),  // bit 0 of the first table
+                _ => r.bits(64),
+            };
+            o.op(&format!("count {}", h));
+            if j == 0 && r.chance(1, 2) {
+                o.op(&format!("count {}", h)); // seen before
+            }
+        }
+        o.op("spd");
+        // the C loader at every level, the other loaders at one or two
+        for j in 0..5 {
+            o.op(&format!("sp ffi {}", LEVELS[((i + j) % 5) as usize]));
+        }
+        o.op(&format!("sp {} {}", ROUTES[(i % 3) as usize], LEVELS[((i + 1) % 5) as usize]));
+        o.op(&format!("sp {} {}", ROUTES[((i + 1) % 3) as usize], r.range(0, 9)));
+        // a loaded-and-kept-in-use filter: one more bit, save again
+        o.op(&format!("count {}", r.bits(64)));
+        o.op(&format!("sp ffi {}", r.range(2, 9)));
+    }
+}
+
 fn oxli_files(dir: &str) -> Vec<String> {
     let mut v = vec![];
     if let Ok(rd) = std::fs::read_dir(format!("{}/{}", TESTDATA, dir)) {
@@ -264,6 +331,9 @@ fn gen(a: &Args) {
         o.op("save");
         o.op("rt");
     }
+    // 1c. huge sparse tables: 2..8 MB of table data with 0, 1 or a handful of bits, every compression
+    // level of nodegraph_to_buffer (1, 2, 6, 9 and plain), every loader
+    sparse_cases(&mut o, &mut r, if thorough { 30 } else { 6 });
     // 2. multi-table graphs, table counts up to 255
     let mut counts: Vec<usize> = vec![1, 2, 3, 4, 5, 6, 7, 8, 16, 31, 32, 33, 64, 127, 128, 200, 254, 255, 255];
     let extra = if thorough { 3000 } else { 300 };
@@ -345,6 +415,36 @@ fn dump(ng: &Nodegraph) -> String {
     format!("k={} occ={} n={} {}", ng.ksize(), ng.noccupied(), ng.ntables(), t.join(";"))
 }
 
+/// digest of a graph with huge, nearly empty tables (nothing here is proportional to the table size)
+fn sparse_digest(ng: &Nodegraph) -> String {
+    let sizes = ng.tablesizes();
+    let bs = ng.clone().into_bitsets();
+    let t: Vec<String> = bs
+        .iter()
+        .zip(sizes.iter())
+        .map(|(b, s)| {
+            let n = b.count_ones(..);
+            let ones: Vec<u64> = b.ones().take(200).map(|x| x as u64).collect();
+            format!("{}:{}:{}", s, n, show_nats(ones))
+        })
+        .collect();
+    let bytes = save_bytes(ng);
+    let mut nz = String::new();
+    let mut n_nz = 0;
+    for (i, b) in bytes.iter().enumerate() {
+        if *b != 0 {
+            n_nz += 1;
+            if n_nz <= 2000 {
+                if !nz.is_empty() {
+                    nz.push(',');
+                }
+                nz.push_str(&format!("{}:{:02x}", i, b));
+            }
+        }
+    }
+    format!("k={} occ={} n={} t={} len={} nz={}", ng.ksize(), ng.noccupied(), ng.ntables(), t.join(";"), bytes.len(), nz)
+}
+
 unsafe fn to_buffer(ng: &Nodegraph, level: u8) -> Result<Vec<u8>, String> {
     sourmash_err_clear();
     let mut size: usize = 0;
@@ -360,7 +460,7 @@ unsafe fn to_buffer(ng: &Nodegraph, level: u8) -> Result<Vec<u8>, String> {
 fn step(st: &mut Option<Nodegraph>, ws: &[&str]) -> String {
     match ws[0] {
         "case" => {
-            if ws.len() >= 5 && ws[2] == "new" {
+            if ws.len() >= 5 && (ws[2] == "new" || ws[2] == "sparse") {
                 let sizes: Vec<usize> = parse_nats(ws[4]).into_iter().map(|x| x as usize).collect();
                 *st = Some(Nodegraph::new(&sizes, ws[3].parse().unwrap()));
             }
@@ -432,6 +532,51 @@ fn step(st: &mut Option<Nodegraph>, ws: &[&str]) -> String {
                     match out {
                         Ok(b) => hex(&b),
                         Err(e) => e,
+                    }
+                },
+                "spd" => sparse_digest(ng),
+                "sp" => unsafe {
+                    let level: u8 = ws[2].parse().unwrap();
+                    let b = match to_buffer(ng, level) {
+                        Ok(b) => b,
+                        Err(e) => return e,
+                    };
+                    if b.starts_with(&[0x1f, 0x8b]) != (level > 0) {
+                        return "badmagic".into();
+                    }
+                    let dir = tempfile::tempdir().unwrap();
+                    let p = dir.path().join(if level > 0 { "g.ng.gz" } else { "g.ng" });
+                    let answer = |g2: &Nodegraph| format!("{} same={}", sparse_digest(g2), g2 == ng && g2.tablesizes() == ng.tablesizes());
+                    match ws[1] {
+                        "ffi" | "ffipath" => {
+                            sourmash_err_clear();
+                            let q = if ws[1] == "ffi" {
+                                nodegraph_from_buffer(b.as_ptr() as *const c_char, b.len())
+                            } else {
+                                std::fs::write(&p, &b).unwrap();
+                                let c = CString::new(p.to_str().unwrap()).unwrap();
+                                nodegraph_from_path(c.as_ptr())
+                            };
+                            if q.is_null() {
+                                return format!("err code{}", sourmash_err_get_last_code() as u32);
+                            }
+                            let out = answer(SourmashNodegraph::as_rust(q));
+                            nodegraph_free(q);
+                            out
+                        }
+                        "rd" | "path" => {
+                            let r = if ws[1] == "rd" {
+                                Nodegraph::from_reader(&b[..])
+                            } else {
+                                std::fs::write(&p, &b).unwrap();
+                                Nodegraph::from_path(&p)
+                            };
+                            match r {
+                                Ok(g2) => answer(&g2),
+                                Err(_) => "fail".into(),
+                            }
+                        }
+                        _ => "bad-op".into(),
                     }
                 },
                 "file" => unsafe {
